@@ -23,7 +23,7 @@ THEOREMS = [
     'C10.split_chunks_exact', 'C10.chunking_irrelevant', 'C10.chunking_keepends_irrelevant',
     'C10.mirror_eq_spec_lines', 'C10.mirror_eq_spec_lines_string', 'C10.comment_blank_insertion', 'C10.comment_insertion_shift',
     'C10.continuation_join', 'C10.logical_lines_compositional',
-    'C10.leading_ws_irrelevant_shape', 'C10.leading_ws_irrelevant', 'C10.trailing_ws_irrelevant_partial', 'C10.keyword_line_layout',
+    'C10.leading_ws_irrelevant_shape', 'C10.leading_ws_irrelevant_stmt', 'C10.leading_ws_irrelevant', 'C10.trailing_ws_irrelevant_partial', 'C10.keyword_line_layout',
     'C06.caret_under_same_char', 'C06.caret_row', 'C06.caret_in_range',
 ]
 ASSUMPTIONS = [
@@ -35,7 +35,7 @@ ASSUMPTIONS = [
     'Scan.classify instantiated with ExprParse.parseExpr is compared on lines without non-ASCII word characters only (ExprScan models '
     'the ASCII part of \\w / \\d; Text.isWord / Scan.shape are exact for all of Unicode and are compared on every line)',
     'Expression text is opaque to C10: classify is parametric in parseExpr; leading_ws_irrelevant is conditional on the stated '
-    'hypothesis about parseExpr (ignores leading blanks up to the error column)',
+    'hypothesis SkipsLeadingBlanks about parseExpr (same tree or same error text with leading blanks); leading_ws_irrelevant_stmt needs no hypothesis',
 ]
 TRUSTED = ['the regex proxies that record which statement pattern matched (harness, in-process, restored after each stream)']
 
